@@ -168,8 +168,9 @@ class WindowModel:
         if d < 0:
             self.seen.add(self.newest)
             self.newest = seq
-            # forget what fell out of the window
-            self.seen = {s for s in self.seen if 0 < ring_diff(self.newest, s) <= self.nbits}
+            # forget (lazily) what fell out of the window; classify()/bits() only look inside it
+            if len(self.seen) > 3 * self.nbits:
+                self.seen = {s for s in self.seen if 0 < ring_diff(self.newest, s) <= self.nbits}
         else:
             self.seen.add(seq)
         return c
